@@ -1,7 +1,9 @@
 package c01
 
 import (
+	"encoding/json"
 	"fmt"
+	"strings"
 
 	"verifharness/engines/c05"
 	"verifharness/engines/xeng"
@@ -11,7 +13,11 @@ import (
 // strayElementSchedules (C06): a list in which one element's goroutine panics inside generated code while its
 // siblings are being marshalled beside it.  Whatever the completion order, the response is the same on every run
 // (and, thorough tier, the race detector stays silent: each element goroutine writes its own slot only).
-func strayElementSchedules(meta *gen.Meta, thorough bool) (int, error) {
+func strayElementSchedules(outDir string, meta *gen.Meta, thorough bool) (int, error) {
+	cf := &gen.CaseFile{Dir: outDir, Prop: "C06", Kind: "elems", Requires: []string{"Base.Prelude", "Model.ElemPanic", "Corr.Corr_Elems"}, Type: "elem_case",
+		Checks: []gen.Check{{Label: "corr", Fn: "elem_corr"}, {Label: "c06", Fn: "elem_mon"}, {Label: "monmodel", Fn: "elem_monmodel"}}, Shard: 400}
+	var descr []any
+	defer func() { _ = meta.AddCaseFile(cf, descr) }()
 	cfgs := []xeng.Config{xeng.QuickConfigs[0], xeng.QuickConfigs[1]}
 	if thorough {
 		cfgs = append(cfgs, xeng.ThoroughConfigs[2], xeng.ThoroughConfigs[3])
@@ -47,6 +53,34 @@ func strayElementSchedules(meta *gen.Meta, thorough bool) (int, error) {
 				}
 				if k == 0 {
 					first = got
+				}
+				// the answer, element by element, for the model and the monitor in Coq (Corr_Elems)
+				var resp struct {
+					Data struct {
+						Nodes []*struct{ ID string } `json:"nodes"`
+					} `json:"data"`
+					Errors []struct {
+						Path []any `json:"path"`
+					} `json:"errors"`
+				}
+				if len(r.Responses) > 0 && json.Unmarshal(r.Responses[0], &resp) == nil && len(resp.Data.Nodes) == 5 {
+					errs := make([]int, 5)
+					for _, e := range resp.Errors {
+						if len(e.Path) == 2 && e.Path[0] == "nodes" {
+							if f, ok := e.Path[1].(float64); ok && f >= 0 && f < 5 {
+								errs[int(f)]++
+							}
+						}
+					}
+					var plan, nulls, es []string
+					for i, e := range resp.Data.Nodes {
+						plan = append(plan, gen.Bool(i == bad))
+						nulls = append(nulls, gen.Bool(e == nil))
+						es = append(es, fmt.Sprint(errs[i]))
+					}
+					cf.Add(fmt.Sprintf("{| ec_plan := [%s]; ec_nulls := [%s]; ec_errs := [%s]%%nat; ec_recovers := %d%%nat |}",
+						strings.Join(plan, "; "), strings.Join(nulls, "; "), strings.Join(es, "; "), r.Recovers))
+					descr = append(descr, map[string]any{"config": p.Cfg.Name, "query": cases[k].Query, "oracle": o, "run": k, "panicking_element": bad, "response": got, "recovers": r.Recovers})
 				}
 				if got != first || r.Crashed || r.Hang {
 					meta.Direct = append(meta.Direct, gen.DirectFinding{Signature: "result-depends-on-element-schedule",
